@@ -39,8 +39,11 @@ func (g *GoFakeS3) routeBase(w http.ResponseWriter, r *http.Request) {
 		object = parts[1]
 	}
 
-	if uploadID := UploadID(query.Get("uploadId")); uploadID != "" {
-		err = g.routeMultipartUpload(bucket, object, uploadID, w, r)
+	if _, ok := query["uploadId"]; ok {
+		// A request that names an upload is a multipart request also when the id
+		// is empty: it must not fall through to the object routes, where an abort
+		// becomes a DELETE of the object and a part upload a PUT over it.
+		err = g.routeMultipartUpload(bucket, object, UploadID(query.Get("uploadId")), w, r)
 
 	} else if _, ok := query["uploads"]; ok {
 		err = g.routeMultipartUploadBase(bucket, object, w, r)
